@@ -12,10 +12,13 @@ EXPLANATION = (
     "cencoding.pyx equal the IDL shipped with the library for every struct they contain; every field id is inside write_thrift's "
     "field loop (refuted for id 14 = known finding); every thrift construction site in the .py files carries an integer-width "
     "marker that declares exactly its 32-bit integer fields; no boolean expression is assigned to an integer/enum field; varint "
-    "and zigzag round trips hold on the whole 64-bit domain (obligations of C11 re-run). NOT under contract: the byte-level "
-    "behaviour of write_thrift/read_thrift per wire kind, to_bytes capacity, dict_eq - these are covered by the bounded IDL "
-    "round-trip contract only (strict IDL decode of to_bytes output, foreign bytes re-serialised, pickle), labelled bounded. "
-    "Level 'other': mixed.")
+    "and zigzag round trips hold on the whole 64-bit domain (obligations of C11 re-run). Byte level, per value kind, from the .pyx: "
+    "write_thrift (header byte, payload bytes, cursor, frame, stop byte; capacity as a precondition - to_bytes.capacity is refuted = "
+    "known finding), write_list (header short/long form, elements), read_thrift (one arbitrary field: id, value, cursor, width-marker "
+    "invariant and the marker round trip on exit), read_list (size, elements), read_unsigned_var_int as a callee contract; the lifting "
+    "from per-field / per-element lemmas to whole structures is argued. NOT under contract: dict_eq, the ThriftObject attribute API "
+    "unless its contract module is present - covered by the bounded IDL round-trip contract (strict IDL decode of to_bytes output, "
+    "foreign bytes re-serialised, pickle), labelled bounded. Level 'other': mixed.")
 
 KNOWN = [("C10-P-field-id-14-outside-loop", re.compile(r"^write_thrift\.field_range\[(ColumnMetaData|LogicalType)\]"))]
 
@@ -53,13 +56,19 @@ def p_varints(ctx):
                 ctx.violation(name, {"function": name.split(".")[0], "model": e[1], "solver_output": str(e[1])}, False, what=str(e[1])[:300])
 
 
+def p_merge_bytes(ctx):
+    from ._merge import p_merge_bytes as f
+    f(ctx)
+
+
 def p_thrift(ctx):
     from ._thrift import p_thrift as f
     f(ctx)
 
 
 def run(ctx):
-    return run_property(ctx, "other", EXPLANATION, p_parts=[p_tables, p_varints, p_thrift], b_modules=["c10_idl_roundtrip"],
+    from ._generic import optional_parts
+    return run_property(ctx, "other", EXPLANATION, p_parts=[p_tables, p_varints, p_thrift, p_merge_bytes] + optional_parts(("_thriftobj", "p_thriftobj")), b_modules=["c10_idl_roundtrip"],
                         assumptions=["the IDL file shipped with the library (parquet.thrift) is the normative one",
                                      "a struct absent from the tables is refused with an error (KeyError) when used"] + kernels.ASSUMED,
                         trusted=["spec/thrift_idl.py (IDL parser, validated by re-encoding 24 third-party footers byte-identically)",
